@@ -878,6 +878,9 @@ func (x *Exec) loopMeasure(st *St, fr *Frame, c *Contract, key string, extra map
 	}
 	var m *Term
 	x.wrapCfail("decreases of "+key, func() { m = x.invEnv(st, fr, extra).tr(c.Decreases.Expr).T })
+	if m == nil || m.Sort != SInt {
+		cfail("loop measure of %s must be an integer", key)
+	}
 	return m
 }
 
